@@ -73,6 +73,12 @@ def run(tier="quick", seed=0):
             GammaPriorConcentrationSampler(a, b, rng=spy).sample(1.0, 0, 0)
             if [e[0] for e in spy.log] != ["standard_gamma"] or abs(spy.log[0][1][0] - a) > 1e-12:
                 problems.append("K=0: expected one Gamma(a) draw, got %s" % spy.log)
+    # generators for which the Gamma(0.01) prior draw underflows to exactly 0.0 (finding F12): the result must still be a usable concentration
+    for seed_ in (1022, 2494, 6536):
+        cases += 1
+        v = GammaPriorConcentrationSampler(0.01, 0.01, rng=np.random.default_rng(seed_)).sample(1.0, 0, 0)
+        if not (v >= 1e-10 and math.isfinite(math.log(v))):
+            problems.append("K=0, default_rng(%d): new concentration %r (log alpha not finite)" % (seed_, v))
     return {"cases": cases, "problems": problems}
 
 
